@@ -63,6 +63,8 @@ def run(chk):
 
     from lib import logorder
     logorder.run(chk)
+    from lib import emitreport
+    emitreport.run(chk)
     return chk.finish(
         level="other",
         explanation=("Guard and atomicity rules over the emit paths of /repo's current source: label ids are validated on the "
